@@ -485,7 +485,24 @@ class C10(Check):
         if spec.get('build') == 'yaml':
             yield with_key(trace, ['spec', 'build'], 'python')
         from checks.c03 import shrink_spec
+
+        def in_domain(sp):
+            # a delay of at most one step is only generated next to a longer one on the same source variable (alone it is
+            # neglected by the implementation, by design): a minimised trace keeps that
+            dt_ = cfg['dt']
+            flat_e = models.flatten(sp)[1]
+            for s_, t_, a_ in flat_e:
+                d_ = a_.get('delay')
+                if d_ and d_ <= dt_ * (1 + 1e-9):
+                    if not any(s2 == s_ and (a2.get('delay') or 0) > dt_ * (1 + 1e-9) for s2, _, a2 in flat_e):
+                        return False
+            return True
         for t in shrink_spec({'spec': spec, 'cfg': {'input': None}}):
+            try:
+                if not in_domain(t['spec']):
+                    continue
+            except Exception:
+                continue
             t2 = copy.deepcopy(trace)
             t2['spec'] = t['spec']
             yield t2
